@@ -135,9 +135,28 @@ def gate_episode(rng):
     return ep
 
 
+# peers identified by their connection's address alone (no forwarding headers): the host part of RemoteAddr, whatever
+# the port; IPv6 zones are part of the address (fe80::1 on eth0 and on eth1 are different hosts)
+PEERS = {"[fe80::1%25eth0]:51000": "fe80::1%eth0", "[fe80::1%25eth1]:51000": "fe80::1%eth1", "[fe80::1%25eth0]:52000": "fe80::1%eth0",
+         "[fe80::1]:51000": "fe80::1", "10.0.0.1:1": "10.0.0.1", "10.0.0.1:65535": "10.0.0.1", "10.0.0.10:1": "10.0.0.10",
+         "[2001:db8::1]:443": "2001:db8::1", "[2001:db8::1%25lo]:443": "2001:db8::1%lo", "[::ffff:10.0.0.1]:9": "::ffff:10.0.0.1"}
+
+
+def peer_gate_episode(rng):
+    mx = rng.choice([1, 2, 3])
+    ep = ["lb new round_robin 0 1 1 1 %d 3600 0 0 0 0 0 0 " % mx, "lb add g0 1 good"]      # (trailing blank = peers episode)
+    peers = rng.sample(sorted(PEERS), rng.randint(3, 6))
+    for tid in range(1, rng.randint(8, 30)):
+        ep.append("lb begin %d 0 - - %s" % (tid, rng.choice(peers)))
+        ep.append("lb end %d 0 200" % tid)
+    return ep
+
+
 def gate_oracle(ep, outs):
     """each client identity is admitted exactly min(requests, max_tokens) times, whatever the others do"""
     ol = C.op_lines(ep)
+    if not ol or not ol[0].startswith("lb new") or len(ol[0].split()) < 8:
+        return []
     mx = int(ol[0].split()[7])
     seen = {}
     fails = []
@@ -147,6 +166,10 @@ def gate_oracle(ep, outs):
             continue
         from urllib.parse import unquote
         client = unquote(w[4]).split(",")[0].strip()
+        if ep and ep[0].endswith(" "):
+            if w[6] not in PEERS:
+                return []
+            client = PEERS[w[6]]
         n = seen.get(client, 0)
         if n < mx and o.startswith("resp 429"):
             fails.append("client %s refused on its request #%d although its own bucket holds %d tokens (another client's traffic was charged to it): %s" % (client, n + 1, mx, l))
@@ -200,7 +223,8 @@ def check(ctx):
             if fails:
                 C.violation(ctx, "rl-crowd-oracle", {
                     "what": "property oracle fails on the implementation's own outputs (one client spends its burst, %d other addresses are seen, the client asks again)" % crowd_n,
-                    "oracle_failures": fails[:5], "ops": big, "impl_outputs_head": oi[:8], "impl_outputs_tail": oi[-4:]})
+                    "oracle_failures": fails[:5], "ops": big, "impl_outputs_head": oi[:8], "impl_outputs_tail": oi[-4:],
+                    "oracle_only": True, "oracle_fn": "vlib.props.c09:oracle"})
         ctx.cov["crowd_clients_oracle_only"] = crowd_n
     iso_checked = 0
     if bad == 0:
@@ -220,7 +244,7 @@ def check(ctx):
     lbbin = c02.build(ctx)
     dg = C.Differential(ctx, lbbin)
     dg.n = 500
-    gate_eps = [gate_episode(ctx.rng) for _ in range(300 if ctx.thorough() else 60)]
+    gate_eps = [gate_episode(ctx.rng) for _ in range(300 if ctx.thorough() else 60)] + [peer_gate_episode(ctx.rng) for _ in range(100 if ctx.thorough() else 20)]
     dg.check(gate_eps, oracle=gate_oracle, label="gate")
     ctx.cov["gate_episodes"] = len(gate_eps)
     # the limiter the balancer builds runs with the configured numbers (seconds become that many seconds)
